@@ -105,7 +105,8 @@ NOISE = ['// %s does things.', '//', '// see also runtime.%s', '//go:nosplit', '
          '//go:noescape', '// go:redirect-from runtime.%s', '//  //go:redirect-from runtime.%s', '//go:redirect runtime.%s',
          '// nolint', '//go:build ignore', '/* block comment %s */', '/*go:redirect-from runtime.%s*/', '//export %s', '//go:redirect-fro']
 DIRS = ['a', 'b', 'a.go', 'goruntime', 'kfmt', 'mm', 'vmm', 'x_test.go', 'z', 'internal', 'B', '_x', 'm-n', 'dir_test']
-FILES = ['a.go', 'b.go', 'bootstrap.go', 'panic.go', 'z.go', 'A.go', 'a_b.go', 'test.go', 'atest.go', 'x.go.go', '.go']
+FILES = ['a.go', 'b.go', 'bootstrap.go', 'panic.go', 'z.go', 'A.go', 'a_b.go', 'test.go', 'atest.go', 'x.go.go', '.go',
+         'cpu_arm64.go', 'tty_windows.go', 'x_linux_amd64.go', 'y_amd64.go', 'z_linux.go', '_hidden.go', '.dot.go', 'a_js_wasm.go', 'doc.go', 'x_darwin_arm64.go', 'test_386.go']
 TESTFILES = ['a_test.go', 'bootstrap_test.go', '_test.go', 'z_test.go']
 NONGO = ['README.md', 'a.go.txt', 'b.s', 'go', 'Makefile', 'x.gox', 'agotest']
 
@@ -120,7 +121,7 @@ class C20(flow.Spec):
     test = 'TestVerifC20$'
     rule = ('generated source trees (depth <= 4, 1-9 files incl. _test.go and non-Go files, 0-6 declarations per file of kinds '
             'func/method/generic/bodyless func/var/const/type, 0-4 doc lines per declaration mixing the directive with other //go: lines, '
-            'doc text and look-alikes, look-alike comments in bodies, detached, on grouped specs, on vars/types and in test files), each '
+            'doc text and look-alikes, look-alike comments in bodies, detached, on grouped specs, on vars/types and in test files; file names with _GOOS/_GOARCH suffixes or a leading _ or ., build-constraint lines / import "C" before or after the package clause, physical lines of 1000..300001 bytes (comment, string literal) before or after annotations), each '
             'written to disk and scanned 20 times by FindRedirects; plus the real /repo/kernel tree; non-trivial = at least two table '
             'entries; distinct = distinct trees')
     assumptions = ['go/parser (which comments form a declaration\'s Doc group) and filepath.Walk (lexical order) are library code: exercised by the harness on real files, not modelled; the model takes the list of files in walk order with their parsed declarations',
@@ -151,6 +152,8 @@ class C20(flow.Spec):
             lines.insert(rng.randrange(len(lines) + 1), l)
         return lines
 
+    long_rate = 0.08
+
     def gen_tree(self, rng, agree=False):
         nfiles = rng.choice([1, 2, 3, 4, 5, 6, 9])
         files = []
@@ -180,12 +183,26 @@ class C20(flow.Spec):
                 other = self.gen_doc(rng, rng.choice([0, 0, 1, 2]), False) if rng.random() < 0.4 else []
                 # a block comment in a group of a parenthesised spec / inside a body is fine; multi-line ones are not generated
                 decls.append((kind, render, nm, doc, other))
+            # file-level oddities: build-constraint lines before the package clause, import "C" (bits 4-7 of the first render)
+            if decls and rng.random() < 0.12:
+                k, r0, nm, doc, other = decls[0]
+                decls[0] = (k, r0 + 16 * rng.randrange(1, 9), nm, doc, other)
             files.append((d, name, decls))
+        # a very long physical line (generated table / long comment / long string) somewhere in one file (bits 8.. of a render)
+        cand = [i for i, f in enumerate(files) if f[2]]
+        if cand and rng.random() < self.long_rate:
+            i = rng.choice(cand)
+            d, name, decls = files[i]
+            j = rng.randrange(len(decls))
+            k, r0, nm, doc, other = decls[j]
+            ln = rng.choice([1000, 4096, 65000, 65534, 65535, 65536, 65537, 65536, 70000, 70001, 131072, 300001])
+            decls[j] = (k, r0 + 256 * rng.randrange(1, 4) + 1024 * ln, nm, doc, other)
         files.sort(key=lambda f: f[0] + [f[1]])      # filepath.Walk order: component-wise lexical
         return files
 
     def gen_cases(self, rng, tier):
         n = {'quick': 1500, 'thorough': 30000, 'search': 3000}[tier]
+        self.long_rate = 0.08 if tier != 'thorough' else 0.02
         out = [([1], 'kernel-tree')]
         for i in range(n):
             agree = rng.random() < 0.2
@@ -198,7 +215,7 @@ class C20(flow.Spec):
         s = []
         for (d, name, decls) in dec_tree(nums):
             s.append('/'.join(d + [name]) + ': ' + '; '.join('%s %s doc=%r other=%r' % (
-                {0: 'func', 1: 'var', 2: 'const', 3: 'type'}.get(k, '?') + '/%d' % r, n, doc, other) for (k, r, n, doc, other) in decls))
+                {0: 'func', 1: 'var', 2: 'const', 3: 'type'}.get(k, '?') + '/%d%s%s' % (r & 15, ' header=%d' % ((r >> 4) & 15) if (r >> 4) & 15 else '', ' longline(pos=%d,len=%d)' % ((r >> 8) & 3, r >> 10) if (r >> 8) & 3 else ''), n, doc, other) for (k, r, n, doc, other) in decls))
         return ' || '.join(s)
 
     def nontrivial(self, nums, obs):
